@@ -15,7 +15,7 @@ counters only:
              predicted from the operand sizes before the evaluation so that the witness exists even if the child
              never comes back
   crash      the run is not killed by a signal and does not die of RecursionError / MemoryError
-  watchdog   a child that reaches the wall-clock watchdog while its counters (dumped every second) are still
+  watchdog   a child that has used up its CPU-time watchdog while its counters (dumped every second) are still
              growing is a non-terminating analysis; a watchdog without counter evidence is inconclusive
 
 Wall-clock time is recorded and never decides.
@@ -148,7 +148,7 @@ def make_case(chk_dir, family, n, p2, variant, tier):
     d = os.path.join(chk_dir, f"{family}_{n}_{int(p2)}")
     os.makedirs(d, exist_ok=True)
     hostile = fam.hostile
-    wd = (25.0 if hostile else 50.0) if tier == "quick" else (60.0 if hostile else 300.0)
+    wd = (20.0 if hostile else 45.0) if tier == "quick" else (45.0 if hostile else 240.0)     # CPU seconds
     return {"family": family, "n": n, "p2": bool(p2), "variant": variant, "dir": d,
             "dump": os.path.join(d, "series.jsonl"), "watchdog": wd,
             "rlimit_mb": 4096 if hostile else 16384, "limits": limits_for(family, n), "interval": 1.0}
@@ -284,22 +284,23 @@ class Judge:
         if r.status == "timeout":
             chk.count("runs that reached the watchdog", 1)
             pend = last.get("in_strict_eval")
+            used = r.value or 0.0
+            if used < 0.8 * case["watchdog"]:
+                chk.note_inconclusive(f"{fam}(n={n}, p2={p2}): given up after {r.wall:.0f} s of wall-clock time in which the "
+                                      f"child got only {used:.0f} s of CPU (machine overloaded)")
+                return
             if pend:
                 self.fail(f"constant_folding[{pend['op']}]", "strict_eval_max_result_bits", "watchdog", p2,
                           f"{fam}(n={n}): unbounded constant folding: still inside strict_eval(`{pend['text']}`), predicted "
-                          f"result {pend['predicted_bits']:.3g} bits, when the {case['watchdog']:.0f} s watchdog fired",
+                          f"result {pend['predicted_bits']:.3g} bits, when the {case['watchdog']:.0f} CPU-s watchdog fired",
                           case, {"fold": pend, "last_snapshot_t": last.get("t")})
                 return
             g = growing_counter(series)
-            cpu = last.get("cpu", 0.0)
-            if g and cpu >= 0.5 * case["watchdog"]:
-                self.fail(fam, g[0], "watchdog", p2,
-                          f"{fam}(n={n}, p2={p2}): still running at the {case['watchdog']:.0f} s watchdog after {cpu:.0f} s of "
-                          f"CPU with {g[0]} growing: {g[2]}", case, {"series_tail": g[2], "cpu_s": cpu})
-                return
+            cpu = used
             if g:
-                chk.note_inconclusive(f"{fam}(n={n}, p2={p2}): watchdog fired with {g[0]} growing but the child had only "
-                                      f"{cpu:.0f} s of CPU (machine overloaded)")
+                self.fail(fam, g[0], "watchdog", p2,
+                          f"{fam}(n={n}, p2={p2}): still running after {cpu:.0f} s of CPU (watchdog {case['watchdog']:.0f} CPU-s) with "
+                          f"{g[0]} growing: {g[2]}", case, {"series_tail": g[2], "cpu_s": cpu})
                 return
             chk.note_inconclusive(f"{fam}(n={n}, p2={p2}): watchdog fired without counter evidence "
                                   f"({len(series)} snapshots)")
@@ -413,6 +414,19 @@ def run_all(chk, judge, cases, variant, workers=None):
         judge.result(r)
 
 
+_TICK = os.sysconf("SC_CLK_TCK") if hasattr(os, "sysconf") else 100
+
+
+def cpu_seconds(pid):
+    """user + system CPU time consumed so far by process `pid` (Linux /proc); 0.0 when unreadable."""
+    try:
+        with open(f"/proc/{pid}/stat", "rb") as f:
+            rest = f.read().rsplit(b")", 1)[1].split()
+        return (int(rest[11]) + int(rest[12])) / _TICK
+    except Exception:
+        return 0.0
+
+
 def pool(items, workers=None):
     """forkpool.run_jobs with a watchdog per job (item['watchdog']) and the child's exit status kept: same child
     protocol (forkpool._child), every killed child is reaped."""
@@ -441,7 +455,10 @@ def pool(items, workers=None):
             except ChildProcessError:
                 rpid, st = pid, 0
             if rpid == 0:
-                if time.time() - t0 > item["watchdog"]:
+                # the watchdog counts the child's own CPU seconds (load on the machine must not turn into a verdict);
+                # a child that does not even get CPU is given up after 8 x that much wall-clock time
+                used = cpu_seconds(pid)
+                if used > item["watchdog"] or time.time() - t0 > 8 * item["watchdog"]:
                     try:
                         os.kill(pid, signal.SIGKILL)
                     except ProcessLookupError:
@@ -452,7 +469,7 @@ def pool(items, workers=None):
                         pass
                     del running[pid]
                     reaped = True
-                    yield forkpool.JobResult(item, "timeout", None, log, time.time() - t0)
+                    yield forkpool.JobResult(item, "timeout", used, log, time.time() - t0)
                 continue
             del running[pid]
             reaped = True
